@@ -220,6 +220,21 @@ func cmdCheck(args []string) int {
 			if v := optInt(h, *tier, "maxpaths", 0); v > 0 {
 				j.Meta["maxpaths"] = strconv.Itoa(v)
 			}
+			if h.Opts["sched"] == "1" {
+				j.Meta["sched"] = "1"
+				j.Meta["schedbudget"] = strconv.Itoa(optInt(h, *tier, "schedbudget", 0))
+				j.Meta["preempt"] = strconv.Itoa(optInt(h, *tier, "preempt", 0))
+				j.Meta["schedtotal"] = strconv.Itoa(optInt(h, *tier, "schedtotal", 0))
+				if h.Opts["deadlock"] != "" {
+					j.Meta["deadlock"] = h.Opts["deadlock"]
+				}
+				if h.Opts["preemptatomics"] == "1" {
+					j.Meta["preemptatomics"] = "1"
+				}
+			}
+			if h.Opts["clock"] != "" {
+				j.Meta["clock"] = h.Opts["clock"]
+			}
 			if h.Opts["fpexact"] == "1" {
 				j.Meta["fpexact"] = "1"
 			}
@@ -240,6 +255,12 @@ func cmdCheck(args []string) int {
 		}
 		if optInt(h, *tier, "goinline", 0) == 1 {
 			cfg.GoInline = true
+		}
+		if optInt(h, *tier, "sched", 0) == 1 {
+			cfg.Sched = true
+			if v := optInt(h, *tier, "schedbudget", 0); v > cfg.SchedBudget {
+				cfg.SchedBudget = v
+			}
 		}
 		if v := optInt(h, *tier, "maxpaths", 0); v > cfg.MaxPaths {
 			cfg.MaxPaths = v
